@@ -362,7 +362,7 @@ def _one(ctx, G, entry, sk, layout, dname, what, idx):
         x = float(obs[j])
         ctx.outcome((product, what, K, round(x, 9) if x == x else "nan"))
     if what == "gamma" and layout == "flat" and dname == "float64" and len(ctx.samples) < 4 and len(idx) > 3 \
-            and entry == "module":
+            and entry == "module" and not any(s_.get("entry") == site for s_ in ctx.samples):
         j = idx[(len(idx) * 2) // 5]
         ctx.sample({"family": "bs_greeks", "entry": site, "strike": [K, sk], "call": call,
                     "point(s,m,t,v)": list(fpts[j]), "observed": float(obs[j]), "d2price/dS2 (mpmath)": float(E[j])})
